@@ -160,7 +160,12 @@ def does_intersection_exist_line2d(line_ray_a, line_ray_b):
     ub = (line_ray_a.v.x * dy - line_ray_a.v.y * dx) / d
     if not line_ray_b._u_in(ub):
         return False
-    return True
+    # the two parametric points must coincide; if they do not, d is only rounding
+    # noise of colinear lines and the parameters are meaningless
+    return _isclose(line_ray_a.p.x + ua * line_ray_a.v.x,
+                    line_ray_b.p.x + ub * line_ray_b.v.x) and \
+        _isclose(line_ray_a.p.y + ua * line_ray_a.v.y,
+                 line_ray_b.p.y + ub * line_ray_b.v.y)
 
 
 def intersect_line2d_arc2d(line_ray, arc):
